@@ -23,7 +23,7 @@ weights (cumulative weights + bisect of `random()·total`).
 | never a zero-count outcome; `0` for a zero-total histogram | `C10_hroll_never_zero_count`, `C10_hroll_zero_total` |
 | `p.roll()`: weight of each sorted roll = its weight in the Cartesian product = its `rolls_with_counts()` count (C02) | `C10_proll_distribution`, `C10_proll_matches_rolls_with_counts` |
 | one independent draw per die, in pool order | `C10_one_draw_per_die` |
-| the generator's answers are the only input besides the dice: one answer per die, in pool order, the rest of the stream handed on untouched; equal answer streams reproduce the roll | `C10_stream_only_source`, `C10_stream_one_answer_per_die`, `C10_equal_streams_reproduce`, `C10_stream_answers_consumed` (zero-total dice take no answer) |
+| the generator's answers are the only input besides the dice: one answer per die, in pool order, the rest of the stream handed on untouched; equal answer streams reproduce the roll | `C10_stream_only_source`, `C10_stream_one_answer_per_die`, `C10_equal_streams_reproduce`, `C10_stream_answers_consumed`, `C10_stream_zero_total` (zero-total dice take no answer and roll `0`) |
 | the stream view has the encoded distribution (of the `total` equally likely answers exactly `h[o]` return `o`; never a zero-count face) and agrees with the weighted-list model | `C10_stream_distribution`, `C10_stream_never_zero_count`, `C10_stream_matches_weighted`; for pools, over all `∏ total` answer sequences: `C10_stream_pool_distribution`, `C10_stream_answer_sequences` |
 | that the generator consulted is the one installed as `dyce.rng.RNG` *at the time of the call* | correspondence (scripted generators swapped between calls, request log) |
 
@@ -159,6 +159,11 @@ theorem C10_stream_answers_consumed (hs : List (Hist Int)) (us : List Nat)
     (hlen : (liveDice hs).length ≤ us.length) :
     (rollPoolS hs us).2 = us.drop (liveDice hs).length := by
   unfold rollPoolS; exact rollDiceS_rest hs us hlen
+
+/-- a zero-total (or empty) histogram rolls `0` and does not consult the generator at all -/
+theorem C10_stream_zero_total (h : Hist Int) (hT : total h = 0) (us : List Nat) :
+    rollHistS h us = (0, us) := by
+  simp [rollHistS, hT]
 
 /-! non-vacuity: 2d{1:1,2:2} with answers 2, 0 (then 7) draws faces 2, 1 in pool order and leaves 7 -/
 example : rollDiceS [[(1, 1), (2, 2)], [(1, 1), (2, 2)]] [2, 0, 7] = ([2, 1], [7]) := by decide
